@@ -141,7 +141,14 @@ pub fn gen_state_scenario(property: &str, seed: u64, thorough: bool) -> Scenario
   let mut crng = root.fork("config");
   let mut wrng = root.fork("workload");
   let mut srng = root.fork("schedule");
-  let config = config_for(property, &mut crng);
+  let mut config = config_for(property, &mut crng);
+  if matches!(property, "C03" | "C04" | "C05" | "C06" | "C07") && crng.chance(1, 6) {
+    // inscriptions activate above genesis while the chain already carries
+    // envelopes: they must be ignored. With the sat index on, ord indexes from
+    // genesis and lost sats are counted from there as the model does.
+    config.first_inscription_height = Some(2 + crng.below(10) as u32);
+    config.index_sats = true;
+  }
   let base = features_for(property);
   let mut f = Features::swarm(&base, &mut wrng);
   if matches!(property, "C08" | "C09" | "C10" | "C11") {
@@ -356,7 +363,10 @@ pub fn check_state(ex: &Exec, ctx: &mut Ctx) {
   }
   let c = &ex.config;
   let mut out = Vec::new();
-  let r = match ctx.property.as_str() {
+  // the oracles only use ord's query API on a quiescent, fault-free index: a
+  // query that panics or fails there is ord's doing (tables that do not agree
+  // with each other), not the harness's
+  let evaluated = std::panic::catch_unwind(std::panic::AssertUnwindSafe(|| match ctx.property.as_str() {
     "C01" => oracle::c01(index, &model, &mut out),
     "C02" => oracle::c02(index, &model, &mut ctx.oracle_rng, &mut out),
     "C03" => oracle::c03(index, &model, c.index_sats, &mut out),
@@ -370,10 +380,23 @@ pub fn check_state(ex: &Exec, ctx: &mut Ctx) {
     }),
     "C17" => oracle::c17(index, &model, network, &mut out),
     _ => Ok(()),
-  };
+  }));
   ctx.report.checks += 1;
-  if let Err(e) = r {
-    ctx.report.harness_error = Some(e);
+  match evaluated {
+    Ok(Ok(())) => {}
+    Ok(Err(e)) => out.push(oracle::v(
+      &ctx.property.clone(),
+      "index_query_failed",
+      format!("a query of the index at {count} blocks returned an error: {e}"),
+    )),
+    Err(_) => {
+      let panics = crate::exec::take_panics();
+      out.push(oracle::v(
+        &ctx.property.clone(),
+        "index_query_panicked",
+        format!("a query of the index at {count} blocks panicked: {panics:?}"),
+      ));
+    }
   }
   ctx.report.violations.extend(out);
 }
